@@ -5,9 +5,9 @@ harness("h_c01", ["harness/h_c01.cc"], libs=("csg",))
 
 PROPS["C01"] = dict(
     parts=[rc("h_c01", quick=dict(cases=24000, procs=8, budget_s=600),
-              thorough=dict(cases=1600000, procs=16, budget_s=1500)),
-           py("vv.exe_c01", quick=dict(cases=48, procs=8, budget_s=600),
-              thorough=dict(cases=1600, procs=16, budget_s=1500))],
+              thorough=dict(cases=800000, procs=16, budget_s=1500)),
+           py("vv.exe_c01", quick=dict(cases=320, procs=8, budget_s=600),
+              thorough=dict(cases=8000, procs=16, budget_s=1500))],
     rule=("map (lib): open / orthorhombic / GROMACS-reduced triclinic boxes (edges k/16 in 0.44..50 nm, skews incl. +-half edge), 1-4 molecule types "
           "x 1-12 molecules x 1-12 atoms, 1-4 CG beads per type with 1-8 shuffled parents, weights from ints / k/16 / decimals / atomic masses incl. "
           "zeros and (10%) negative ones, optional d vector, spherical and (>=3 parents) ellipsoidal beads, molecule centre anywhere "
@@ -20,7 +20,7 @@ PROPS["C01"] = dict(
           "(ambiguity band 1e-6 + rounding), open boxes never; non-trivial = closed box, outside the band, 0.5 < ratio < 2. "
           "csg_map (exe): generated top.xml / map.xml / .gro (x,v; orthorhombic or triclinic) or .dump (x,v,f; orthorhombic) trajectories of 1-3 "
           "frames -> csg_map --cg --out .gro/.dump [--vel --force] vs numpy recomputation from the same text files within the printed precision; "
-          "non-trivial = as for map."),
+          "non-trivial = as for map. --vel / --force are also passed (rarely) when the trajectory carries no velocities / forces: the tool must neither crash nor write such columns."),
     assumptions=COMMON_ASSUME + [
         "a parent with weight 0 contributes nothing to the bead force (d_i must be 0 there; with no d vector d=w is read literally)",
         "d/w uses d and w each normalised to sum 1 (VOTCA manual, eq. for the CG force)",
